@@ -18,10 +18,10 @@ theorem EncName.append_right {buf : Bytes} {d off e : Nat} {labels : List Bytes}
     refine EncName.label (by rw [List.getElem?_append_left hlt]; exact hc) hlen h1 h63 ?_ ih
     rw [List.drop_append_of_le_length (by omega), List.take_append_of_le_length (by simp; omega)]
     exact htake
-  | ptr hhi hlo hgt _ hne ih =>
+  | ptr hhi hlo hgt _ ih =>
     have h1 := (List.getElem?_eq_some_iff.mp hhi).1
     have h2 := (List.getElem?_eq_some_iff.mp hlo).1
-    exact EncName.ptr (by rw [List.getElem?_append_left h1]; exact hhi) (by rw [List.getElem?_append_left h2]; exact hlo) hgt ih hne
+    exact EncName.ptr (by rw [List.getElem?_append_left h1]; exact hhi) (by rw [List.getElem?_append_left h2]; exact hlo) hgt ih
 
 /-! ### more than `maxRdepth + 1` pointer hops -/
 
@@ -65,26 +65,29 @@ theorem chain_enc : ∀ n, n ≤ 100 → EncName (chainBuf n) n (chainStart n) [
     have hoff : chainStart (n + 1) = (chainBuf n).length := by simp [chainStart, hlen]
     simp only [Nat.succ_ne_zero, ↓reduceIte, chainBuf]
     rw [hoff]
-    refine EncName.ptr (e' := chainStart n + (if n = 0 then 3 else 2)) (hi := 192) (lo := UInt8.ofNat (chainStart n)) (by simp) (by simp) (by decide) ?_ (by simp)
+    refine EncName.ptr (e' := chainStart n + (if n = 0 then 3 else 2)) (hi := 192) (lo := UInt8.ofNat (chainStart n)) (by simp) (by simp) (by decide) ?_
     rw [htgt]
     exact key
 
 /-- 65 hops are followed ... -/
 theorem chain65_decodes : nameUnpack (chainBuf 65) (chainStart 65) nameBufSz = .ok ⟨133, 2, [97, 0]⟩ := by
-  have := nameUnpack_enc (chain_enc 65 (by omega)) (by decide) (by decide)
-  simpa [chainStart, wireLen, nameOut, dotted] using this
+  decide +kernel
 
 /-- ... the 66th is refused although the name is encoded by the same rules -/
 theorem chain66_rejected : nameUnpack (chainBuf 66) (chainStart 66) nameBufSz = .err := by decide +kernel
 
 /-! ### a pointer that leads to the root label -/
 
-/-- `03 'foo' C0 06 00`: label "foo", then a pointer to the root label at offset 6. Read by RFC 1035 this is the name
-"foo"; the decoder stores "foo." -/
-theorem ptr_to_root_decodes_with_dot :
-    nameUnpack [3, 102, 111, 111, 192, 6, 0] 0 nameBufSz = .ok ⟨6, 4, [102, 111, 111, 46, 0]⟩ := by decide +kernel
+/-- `03 'foo' C0 06 00`: label "foo", then a pointer to the root label at offset 6: the name "foo". The code since
+fd17dd6 replaces the '.' it had appended by NUL: the buffer holds "foo" -/
+theorem ptr_to_root_decodes : nameUnpack [3, 102, 111, 111, 192, 6, 0] 0 nameBufSz = .ok ⟨6, 4, [102, 111, 111, 0, 0]⟩ := by
+  decide +kernel
 
-/-- the same name without the detour decodes to "foo" -/
+/-- PRE-FIX code (`nameUnpackV false`, the compression branch before fd17dd6): the same input is stored as "foo." -/
+theorem prefix_ptr_to_root_decodes_with_dot :
+    nameUnpackV false [3, 102, 111, 111, 192, 6, 0] 0 nameBufSz = .ok ⟨6, 4, [102, 111, 111, 46, 0]⟩ := by decide +kernel
+
+/-- the same name without the detour decodes to "foo" (either version) -/
 theorem plain_decodes_without_dot :
     nameUnpack [3, 102, 111, 111, 0] 0 nameBufSz = .ok ⟨5, 4, [102, 111, 111, 0]⟩ := by decide +kernel
 
